@@ -102,6 +102,19 @@ func (u *User) hasFilePermission(cleanPath, permissionType string) (bool, error)
 	return hasPermission, nil
 }
 
+// A permission type consists of lower case letters only, e.g. "readfiles".
+func isPermissionType(str string) bool {
+	if len(str) == 0 {
+		return false
+	}
+	for _, r := range str {
+		if r < 'a' || r > 'z' {
+			return false
+		}
+	}
+	return true
+}
+
 func (u *User) iteratePaths(cleanPath, permissionType string) (bool, error) {
 	// By default assume no permissions
 	hasPermission := false
@@ -110,10 +123,12 @@ func (u *User) iteratePaths(cleanPath, permissionType string) (bool, error) {
 		var regexStr string
 		var negate bool
 
-		splitted := strings.Split(permission, ":")
-		if len(splitted) > 1 {
+		// An optional permission type precedes the pattern ("readfiles:^/var/log/").
+		// A ':' further on belongs to the pattern itself (e.g. "[[:alnum:]]").
+		splitted := strings.SplitN(permission, ":", 2)
+		if len(splitted) == 2 && isPermissionType(splitted[0]) {
 			typeStr = splitted[0]
-			permission = strings.Join(splitted[1:], ":")
+			permission = splitted[1]
 		}
 
 		dlog.Server.Debug(u, cleanPath, typeStr, permission)
